@@ -260,16 +260,21 @@ def r83_r86(repo, ctx, index, states):
     for o in outs:
         ev = o.events
         adaptive = [e for e in ev if e[0] == 'cond' and e[2].strip() == 'self._adaptiveBinSize']
-        if not adaptive or adaptive[0][1] != 'T':
+        if adaptive and adaptive[0][1] != 'T':
             continue
+        # (a path that returns without ever testing the adaptive flag is also a path of the adaptive configuration)
         n85 += 1
         bn = fin(o, 'bins')
         ok = bn in (('old', 'minBins'), ('old', 'maxBins'))
         if not ok:
             # the bins > maxBins test must have been evaluated False after the last write of bins
             last_w = max([i for i, e in enumerate(ev) if e == ('write', 'bins')] or [-1])
-            tests = [i for i, e in enumerate(ev) if e[0] == 'cond' and e[1] == 'F' and 'self.bins > self.maxBins' in e[2].replace('  ', ' ')]
+            tests = [i for i, e in enumerate(ev) if e[0] == 'cond' and e[1] == 'F' and ' '.join(e[2].split()) in ('self.bins > self.maxBins', '(self.bins > self.maxBins)')]
             ok = bool(tests) and max(tests) > last_w
+            if not ok:
+                # the same decision recorded on symbolic terms: (final class count) <= maxBins, however the test is spelled
+                from ..symfield import holds
+                ok = holds(ev, 'LtE', bn, fin(o, 'maxBins'))
         ctx.check(ok, 'R8.5', PB, f'{CLS}.{name}', f, 'adaptive path ends with minBins/maxBins classes, or the class count was tested against maxBins after its last change',
                   f'adaptive adjustment can leave more classes than the configured maximum (final bins = {show(bn)[:60]})',
                   construct=f'{name}: {[c[0] + ":" + c[1] for c in o.conds][:5]}')
